@@ -1,11 +1,35 @@
-"""C04: the ragged-array kernel of the database round trip (same harness function as C05's, registered for C04 as well:
-jaggedArray.py is an anchor of both properties)."""
+"""C04: kernels of the database round trip that are shared with C05 / C07 (same harness functions, registered for C04 as
+well because jaggedArray.py, packSpecialData/unpackSpecialData and StructuredGrid.reduce are anchors of C04 too):
+
+* the ragged-array kernel (per-object arrays of differing shapes, unset entries, zero-valued entries);
+* dictionary-valued parameters (Component.p.numberDensities is one): "the same number densities" includes nuclides
+  whose density is exactly zero;
+* "grid persisted through its constructor arguments": the grid rebuilt from reduce() is the grid as it is at the time
+  of THIS snapshot, whatever happened to it (and however often it was snapshotted) before.
+"""
 from symx.engine import harness
 
 from harness import C05_jagged as _j
+from harness import C05_sentinels as _s
+from harness import C07_grids as _g
 
-_h = _j.ragged_collection_survives_packing_or_is_refused.harness
-harness("C04", name="ragged_parameter_values_survive_packing", bounds=_h.bounds, stubs=_h.stubs, max_paths=_h.max_paths,
-        instances={"quick": [dict(n=2)], "thorough": [dict(n=3)]})(_j.ragged_collection_survives_packing_or_is_refused.__wrapped__
-                                                                   if hasattr(_j.ragged_collection_survives_packing_or_is_refused, "__wrapped__")
-                                                                   else _j.ragged_collection_survives_packing_or_is_refused)
+
+def _also_for_C04(fn, name, instances):
+    h = fn.harness
+    harness("C04", name=name, bounds=h.bounds, stubs=h.stubs, max_paths=h.max_paths, instances=instances)(fn)
+    fn.harness = h
+
+
+_also_for_C04(_j.ragged_collection_survives_packing_or_is_refused, "ragged_parameter_values_survive_packing",
+              {"quick": [dict(n=2)], "thorough": [dict(n=3)]})
+_also_for_C04(_j.ragged_entries_holding_zeros_are_still_values, "ragged_parameter_values_holding_zeros_survive_packing",
+              {"quick": [dict(n=2)], "thorough": [dict(n=3)]})
+_also_for_C04(_s.dictionary_entries_read_back_whatever_their_value, "number_density_dictionaries_keep_zero_valued_nuclides",
+              {"quick": [dict(n=1, nkeys=2, rich=True), dict(n=2, nkeys=2, rich=False)],
+               "thorough": [dict(n=1, nkeys=3, rich=True)]})
+_also_for_C04(_g.grid_rebuilt_from_constructor_arguments_is_the_same_grid, "grid_persisted_through_constructor_arguments",
+              {"quick": [dict(kind=k) for k in ("hex", "hexCorners", "cart", "cartOffset", "axial")]})
+_also_for_C04(_g.grid_rebuilt_from_constructor_arguments_is_the_current_grid_after_any_history,
+              "grid_persisted_is_the_current_grid_after_any_history",
+              {"quick": [dict(kind=k, nops=2) for k in ("hex", "cartOffset", "axial")],
+               "thorough": [dict(kind=k, nops=3) for k in _g.HISTORY_OPS]})
